@@ -43,9 +43,11 @@ func (l *SyncList[T]) Push(value T) {
 		next := atomic.LoadPointer(&tailNode.next)
 
 		if next == nil && atomic.CompareAndSwapPointer(&tailNode.next, next, node) {
+			// count the value before it becomes poppable (publishing the tail first let a
+			// concurrent Pop decrement len before this increment: Len() == -1)
+			atomic.AddInt64(&l.len, 1)
 			// atomic.CompareAndSwapPointer(&l.tail, tail, node)
 			atomic.StorePointer(&l.tail, node)
-			atomic.AddInt64(&l.len, 1)
 			return
 		}
 
